@@ -295,7 +295,7 @@ def gen_run_scenario(rng, feats, cycles=None):
     if r.random() < 0.3:
         ops.append(['do', 0, ['stopMgr', 0, r.choice(codes)]])      # stop on a manager that is not running
         ops.append(['tick', 0])
-    return {'tmpls': g.tmpls, 'progs': g.progs, 'comps': g.comps, 'ops': ops, 'fuel': 60000}
+    return {'tmpls': g.tmpls, 'progs': g.progs, 'comps': g.comps, 'ops': ops, 'fuel': 4000}
 
 
 # ------------------------------------------------------------------------------------------
